@@ -25,8 +25,9 @@ func init() {
 			"(R11) errors turned into success (A13) over package config: only a missing file (fs.ErrNotExist) is tolerated when loading at start; " +
 			"(R12) sibling agreement (A14): the paired functions consist of the same operations - calls with their constant arguments, comparisons (canonical under negation and operand order), field reads/writes, channel operations, returns, each with the number of conditions it depends on - once the instance-specific names are mapped onto each other; logging is ignored, named differences are listed in the table: ReplaceConfig ~ ReplaceDefaultConfig, setConfigOption ~ setDefaultConfigOption (only the user layer is saved to file). " +
 			"(R13) sibling agreement (A14) over the getter families: GetAsString ~ GetAsStringArray ~ GetAsInt ~ GetAsBool, plain and concurrency-safe - they differ only in the option-type constant and the value field. " +
+			"(R14) Register writes Option.ValidationRegex (derived from the possible values) only before it compiles it. " +
 			"NOT decided: JSON encode->decode equality of values, semantics of validation functions/regexes, real setter/getter interleavings (R2-R4 are the protocol's necessary order/lock facts).",
-		Rules: []ruleFn{c04R1, c04R2, c04R3, c04R4, c04R5, c04R6, c04R9, c04R10, c04R11, func(c *Ctx, r *Report) { siblingRule(c, r, "C04-R12", sibConfig) }, func(c *Ctx, r *Report) { siblingRule(c, r, "C04-R13", sibGetters) },
+		Rules: []ruleFn{c04R1, c04R2, c04R3, c04R4, c04R5, c04R6, c04R9, c04R10, c04R11, func(c *Ctx, r *Report) { siblingRule(c, r, "C04-R12", sibConfig) }, func(c *Ctx, r *Report) { siblingRule(c, r, "C04-R13", sibGetters) }, c04R14,
 			lockRuleFor("C04-R7", 20, []string{"config"}, []string{}, map[string]string{}),
 			repoErrRuleFor("C04-R8", 25, func(c *Ctx, fn *ssa.Function) bool { return short(fn.Pkg.Pkg.Path()) == "config" }, map[string]string{"config.AddToDebugInfo / config.ForEachOption": "the callback never returns an error", "config.GetActiveConfigValues / config.ForEachOption": "the callback never returns an error"})},
 	})
